@@ -19,7 +19,8 @@ func init() {
 			"(A) no unchecked type assertion in per-request module code; (E) the polling loop waits on nothing a worker owns; (G) the reverse proxy keeps its default 502 error handler (or a custom one writes 502 on every path); " +
 			"(P) response maps handed to the serialiser goroutine are not aliased with maps the handler keeps mutating; (C) no channel with concurrent senders is closed, no unguarded blocking send in shim endpoints. " +
 			"Not decided: panics inside dependencies, resource exhaustion, latency of neighbours. " +
-			"(N, second part) elements of pointer collections filled by encoding/json are nil-tested before use; (C, second part) a channel is only closed by its sole sending goroutine (or after WaitGroup.Wait).",
+			"(N, second part) elements of pointer collections filled by encoding/json are nil-tested before use; (C, second part) a channel is only closed by its sole sending goroutine (or after WaitGroup.Wait). " +
+			"(I) an offset found by searching one string/slice only slices that same value, and possibly-nil pointers are tested before use; (Q) per-request functions never return (nil, nil); (R) the fetch helper's error belongs to the response it returns; (O) the dedup LRU is confined to the poller; (E, second part) one worker goroutine is started per fetched request without waiting for earlier ones.",
 		Assumptions: []string{
 			"VTA call graph is sound for this module (no reflect/unsafe dispatch)",
 			"dependencies do not call os.Exit/log.Fatal on per-request paths (only module source is scanned for exit calls)",
@@ -142,7 +143,11 @@ func runC07(c *Ctx) {
 	}
 
 	// ---- C07.E
-	c.Rule("C07.E", "the polling loop shares no wait with its workers", 2)
+	c.Rule("C07.E", "the polling loop shares no wait with its workers; one goroutine per request", 3)
+	ruleWorkerPerRequest(c, p, "C07.E")
+	c.Rule("C07.I", "offsets are applied to the value they were found in; possibly-nil pointers are tested before use", 4)
+	ruleIndexSliceAgreement(c, p, "C07.I", "agent/websockets", "agent/banner", "agent/utils", "agent/sessions")
+	ruleMayNilDeref(c, p, "C07.I", "agent/websockets.(*Connection).SendClientMessage", "agent/websockets.(*Connection).ReadServerMessages", "agent/websockets.NewConnection")
 	if f := c.need(p, "C07.E", "agent.pollForNewRequests"); f != nil {
 		bad := ""
 		for _, op := range ChanOpsOf(f) {
